@@ -188,6 +188,16 @@ def check(ctx):
                        f"{g_.qualname} is not decorated njit(cache=dataiter.USE_NUMBA_CACHE)", nontrivial=False,
                        clause="with USE_NUMBA_CACHE on and off")
     ctx.count("njit kernels", n_jit, 7)
+    nk = repo.fn(f"{A.AGG}.nth_apply_numba")
+    from ..pattern import pmatch as _pm
+    tests = [n.test for n in ast.walk(nk.node) if isinstance(n, ast.If)] + [n.test for n in ast.walk(nk.node) if isinstance(n, ast.IfExp)]
+    idx = nk.params[2] if len(nk.params) > 2 else "index"
+    okb = any(_pm(f"0 <= {idx} < len(_G) or -len(_G) <= {idx} < 0", t) is not None or _pm(f"-len(_G) <= {idx} < len(_G)", t) is not None
+              or _pm(f"-len(_G) <= {idx} < 0 or 0 <= {idx} < len(_G)", t) is not None for t in tests)
+    ctx.ob("SIB-8", nk, f"index validity test {[norm(t) for t in tests]}", tests[0] if tests else nk.node, okb,
+           "the Numba kernel accepts exactly the indices Python indexing accepts (-len <= index < len), like the try/except IndexError of the Python kernel" if okb else
+           "the Numba kernel's bounds test is not -len(group) <= index < len(group): for some index (e.g. index == -len) it yields the "
+           "default where the Python kernel yields an element", clause="the same values, the same missing-value positions")
     # mode kernel counts over the whole group
     mk = repo.fn(f"{A.AGG}.mode_apply_numba")
     inner = [n for n in ast.walk(mk.node) if isinstance(n, ast.For) and isinstance(n.iter, ast.Call) and norm(n.iter.func) == "range"]
